@@ -263,6 +263,63 @@ def audit(roots, ctx, extra=None, nodes=True):
     return probs, stats
 
 
+def excess_map(roots, tree_types, leaf_types, tracked):
+    """{id: (description, refcount - slots owning it)} for every node below the roots and every
+    key / value object of the `tracked` classes.  Whoever else holds references (the harness'
+    key universe, a model) holds the same ones before and after an operation, so the excess of an
+    object must not change across an operation - that is the leak / double-release oracle used
+    where the harness cannot avoid strong references (C14)."""
+    occ = collections.Counter()
+    objs = {}
+
+    def walk():
+        # all traversal temporaries live (and die) in this frame, so that none of them is
+        # counted when the reference counts are read below
+        visited = set()
+
+        def note(o, n=1):
+            if isinstance(o, tracked) or type(o) in tree_types or type(o) in leaf_types:
+                occ[id(o)] += n
+                objs[id(o)] = o
+        stack = [r for r in roots]
+        while stack:
+            n = stack.pop()
+            if id(n) in visited:
+                continue
+            visited.add(id(n))
+            st = n.__getstate__()
+            if st is None:
+                continue
+            if type(n) in leaf_types:
+                for x in st[0]:
+                    note(x)
+                if len(st) > 1:
+                    note(st[1])
+                continue
+            if len(st) == 1:
+                b = n._firstbucket
+                note(b, 2)
+                stack.append(b)
+                continue
+            data, first = st
+            for i, x in enumerate(data):
+                note(x)
+                if not (i & 1):
+                    stack.append(x)
+            note(first)
+    walk()
+    walk = None
+    out = {}
+    rootids = {id(r) for r in roots}
+    for i in list(objs):
+        if i in rootids:
+            continue
+        desc = repr(objs[i]) if isinstance(objs[i], tracked) else describe(objs[i])
+        out[i] = (desc, sys.getrefcount(objs[i]) - 2 - occ[i])
+    objs.clear()
+    return out
+
+
 def describe(o):
     if isinstance(o, (TK, TV)):
         return repr(o)
